@@ -13,6 +13,9 @@ TP = 'tulz::ThreadPool'
 INTEGRAL_T = {'int', 'unsigned int', 'long', 'unsigned long', 'size_t', 'std::size_t', 'short', 'unsigned short', 'long long', 'unsigned long long', 'unsigned', 'ssize_t', 'uint32_t', 'uint64_t', 'int32_t', 'int64_t'}
 
 
+TP_FIELDS = ('m_pool', 'm_queue', 'm_condition', 'm_expiryTimeout', 'm_maxThreadCount', 'm_isRunning', 'm_poolMutex', 'm_queueMutex')
+
+
 class TPDomain(EvDomain):
     loop_unroll = 1
     max_depth = 8
@@ -514,7 +517,11 @@ class TPAnalysis:
                     self.add('TP.10', bool(ws), f'row {row}: start() re-arms a stopped pool', ws[0].site if ws else site, '' if ws else 'start() after stop() leaves the pool stopped')
                 notif = [e for e in E if e.kind in ('notify_one', 'notify_all')]
                 okn = bool(notif) and bool(enq) and E.index(notif[-1]) > E.index(enq[0])
-                self.add('TP.5', okn, f'row {row}: a worker is notified after the task is queued', notif[-1].site if notif else site, '' if okn else 'no notification after the insertion: an idle worker never sees the task')
+                xf = common.extra_field_fork(P, 'tulz::ThreadPool', TP_FIELDS)
+                if not okn and xf is not None:
+                    self.add('TP.5', None, f'row {row}: a worker is notified after the task is queued', xf.shortloc(), f'the notification is skipped on a test of `{(xf.text() or "")[:50]}`, a member outside the pool tables (whether "nobody is waiting" follows from it is not followed)')
+                else:
+                    self.add('TP.5', okn, f'row {row}: a worker is notified after the task is queued', notif[-1].site if notif else site, '' if okn else 'no notification after the insertion: an idle worker never sees the task')
         # TP.8b: with no worker at all (a fresh pool, every worker expired, or the first start() after stop() emptied m_pool) the submitted
         # task can only be run by a worker this call creates.  The queue is empty in those states (a worker leaves only when stop() clears it
         # or when it saw it empty); the other integral fields have the value the constructor / the leaving workers gave them.
@@ -641,6 +648,10 @@ class TPAnalysis:
                 na = [e for e in E if e.kind == 'notify_all' and e.obj == 'm_condition']
                 acq = max((i for i in range(wi) if E[i].kind == 'acquire' and E[i].obj == 'm_queueMutex'), default=0)
                 ok_b = any(E.index(e) > acq for e in na)
+                xf = common.extra_field_fork(P, 'tulz::ThreadPool', TP_FIELDS)
+                if not ok_b and xf is not None and not any(e.kind == 'notify_one' for e in E):
+                    once('TP.6b', None, 'stop(): notify_all() on the workers\' condition after the flag write or inside the same critical section', xf.shortloc(), f'the notification is skipped on a test of `{(xf.text() or "")[:50]}`, a member outside the pool tables: not followed')
+                    continue
                 once('TP.6b', ok_b, 'stop(): notify_all() on the workers\' condition after the flag write or inside the same critical section', na[0].site if na else site,
                      '' if ok_b else ('notify_one() wakes a single worker; the others never leave the wait' if any(e.kind == 'notify_one' for e in E) else 'no notify_all(): idle workers are never woken'))
                 iters = sum(1 for i, c in loop_visits(E, conds) if c == 'm_pool' and i > wi) + sum(1 for e in E[wi:] if e.kind == 'foreach' and e.obj == 'm_pool')
